@@ -24,6 +24,8 @@ from contracts import regex_obl as _ro   # noqa: E402
 # file-level glue every per-line property relies on: one FileAnonymizer per run, every stage once per line with its
 # own configuration, one shared secret lookup
 GLUE_IO = [M_AF + "FileAnonymizer.anonymize_io"]
+# the command line hands every option to anonymize_files unchanged (lists split at commas, private blocks appended)
+GLUE_MAIN = [M_NC + "main"]
 GLUE = [M_AF + "FileAnonymizer.__init__", M_AF + "FileAnonymizer.anonymize_io", M_AF + "anonymize_files@impl"]
 from contracts import cli as _cli        # noqa: E402
 
@@ -46,7 +48,7 @@ PROPS = {
     "C02": dict(
         level="proof",
         lemmas=IP_LEMMAS,
-        functions=IP_CORE + IP_UNDO + IP_TEXT,
+        functions=IP_CORE + IP_UNDO + IP_TEXT + GLUE_MAIN,
         standins=[("rt_ip", "C02")],
         design_ref="7/C02",
         technique="deductive verification of deanonymize/_deanonymize_bits against spec D/Ginv plus inverse lemmas "
@@ -88,7 +90,7 @@ PROPS = {
     "C05": dict(
         level="proof",
         lemmas=IP_LEMMAS,
-        functions=IP_CORE + IP_TEXT,
+        functions=IP_CORE + IP_TEXT + GLUE_MAIN,
         standins=[("rt_ip", "C05")],
         design_ref="7/C05",
         technique="bit-vector proof of _is_mask against the 66-disjunct spec; contracts on should_anonymize and "
